@@ -385,7 +385,12 @@ func Gen(r *rand.Rand, o GenOpts) (int, int, []Op) {
 		case k < 70:
 			ops = append(ops, Op{K: "show"})
 		case k < 75:
-			ops = append(ops, Op{K: "cursor", X: r.IntN(cw+3) - 1, Y: r.IntN(ch+3) - 1})
+			if r.IntN(4) == 0 {
+				// well outside on either side (negative coordinates beyond -1 included)
+				ops = append(ops, Op{K: "cursor", X: r.IntN(cw+8) - 4, Y: r.IntN(ch+8) - 4})
+			} else {
+				ops = append(ops, Op{K: "cursor", X: r.IntN(cw+3) - 1, Y: r.IntN(ch+3) - 1})
+			}
 		case k < 76:
 			ops = append(ops, Op{K: "hidecursor"})
 		case k < 78:
